@@ -31,7 +31,11 @@ pub fn write_module(
     for segment in key.iter() {
         path.push(segment.as_str());
     }
-    path.set_extension("rs");
+    // `set_extension` would replace whatever follows a dot in the module's own name
+    // (`a.b` and `a` would both become `a.rs`)
+    let mut file_name = path.file_name().unwrap_or_default().to_os_string();
+    file_name.push(".rs");
+    path.set_file_name(file_name);
 
     let directory_path = path.parent().map(|p| p.to_path_buf()).unwrap_or_default();
     std::fs::create_dir_all(directory_path)?;
